@@ -60,19 +60,20 @@ def run(ctx, model_ok, deep=False):
         items.append(key.jwk(private=(kind == "oct"), alg=alg))
     jf = os.path.join(ctx.scratch, "threads.jwks")
     json.dump({"keys": items}, open(jf, "w"))
-    runs = [(2, 20), (4, 12), (16, 4)] if tier == "quick" else [(2, 400), (4, 300), (16, 120), (64, 20)]
+    # (threads, rounds per cold start, cold starts): every cold start hands the threads a keyring nobody has used yet
+    runs = [(2, 4, 5), (4, 2, 6), (16, 1, 4)] if tier == "quick" else [(2, 40, 10), (4, 30, 10), (16, 12, 10), (64, 2, 10)]
     env = dict(os.environ, TSAN_OPTIONS="exitcode=66:halt_on_error=0:second_deadlock_stack=1:history_size=4")
     ev, outs, samples = 0, set(), []
     for prov in ("openssl", "gnutls"):
-        for n, rounds in runs:
+        for n, rounds, cold in runs:
             for rep in range(1 if tier == "quick" else 2):
-                r = subprocess.run([exe, jf, str(n), str(rounds), prov, str(ctx.seed + rep)], capture_output=True, text=True, env=env, timeout=3000)
+                r = subprocess.run([exe, jf, str(n), str(rounds), prov, str(ctx.seed + rep), str(cold)], capture_output=True, text=True, env=env, timeout=3000)
                 ev += 1
                 outs.add((prov, n, r.returncode))
                 line = r.stdout.strip().splitlines()[-1] if r.stdout.strip() else ""
                 if len(samples) < 4:
                     samples.append({"provider": prov, "threads": n, "rounds": rounds, "exit": r.returncode, "out": line})
-                replay_lines = ["# harness/threads.c <jwks with %d keys> %d %d %s %d  (ThreadSanitizer build)" % (len(items) // 2, n, rounds, prov, ctx.seed + rep)]
+                replay_lines = ["# harness/threads.c <jwks with %d keys> %d %d %s %d %d  (ThreadSanitizer build)" % (len(items) // 2, n, rounds, prov, ctx.seed + rep, cold)]
                 finished = line.startswith("threads=")
                 if not finished:
                     # the harness must always reach its last line; a crash (also a TSan DEADLYSIGNAL) is a result
@@ -93,5 +94,5 @@ def run(ctx, model_ok, deep=False):
                     ctx.notes.append("%d ThreadSanitizer report(s) without any libjwt frame under %s/%d threads (library internals): %s" % (
                         len(reports), prov, n, reports[0].splitlines()[0][:100]))
     ctx.add_suite("threads", evaluations=ev, distinct_nontrivial=len(outs) + 1,
-                  rule="TSan build; N threads x rounds x 9 (key, alg) pairs x {generate, verify own, verify sequential, verify corrupted}; both providers; start skew from rand_r; distinct = (provider, N, exit status)",
+                  rule="TSan build; N threads x cold starts (fresh, never used keyring each) x rounds x 9 (key, alg) pairs x {generate, verify own, verify sequential, verify corrupted}; both providers; start skew from rand_r; distinct = (provider, N, exit status)",
                   exhaustive=False, samples=samples)
